@@ -95,9 +95,10 @@ def _install_reparent_log() -> None:
     def reparent(self: model.Documentable, new_parent: model.Module, new_name: str) -> None:
         log = getattr(self.system, 'sim_log', None)
         old = self.fullName()
+        from_class = isinstance(self.parent, model.Class)
         orig(self, new_parent, new_name)
         if log is not None:
-            log.append(('reparent', ident(self) if not isinstance(self, model.Module) else self.name, old, self.fullName()))
+            log.append(('reparent', ident(self) if not isinstance(self, model.Module) else self.name, old, self.fullName(), from_class))
     reparent._verif_wrapped = True      # type: ignore[attr-defined]
     model.Documentable.reparent = reparent      # type: ignore[method-assign]
 
